@@ -853,13 +853,7 @@ def u64_probe(release):
 def check_saveload(pid, tier, seed):
     t0 = time.time()
     p = checks.PROPS[pid]
-    if os.environ.get("SV_SKIP_PROOF") == "1":
-        # TEST ONLY: lets the python side be exercised while the Coq files are being written.
-        # Without the variable the real obligations (build, hygiene, Print Assumptions, pins) are checked.
-        log("SV_SKIP_PROOF=1: proof obligations NOT checked (test-only switch)")
-        proof = dict(theorems=[], discharged=0, obligations=0, failures=[], axioms={}, skipped=True)
-    else:
-        proof = checks.proof_obligations(pid, tier)
+    proof = checks.proof_obligations(pid, tier)
     simple, uu, gstats = gen_saveload(pid, tier, seed)
     results = run_both(simple, uu)
     if tier == "thorough":
@@ -930,7 +924,7 @@ def check_saveload(pid, tier, seed):
 
     rc = 0
     for cls, r in known_hits.items():
-        print("KNOWN-FINDING: property=%s %s" % (pid, known_cls[(pid, cls)]["text"]))
+        print("KNOWN-FINDING: " + known_cls[(pid, cls)]["text"])
     # the boundary id 2^64-1 cannot be written in a history (63-bit glue): a dedicated probe on the real code
     probes = {}
     probe_violation = None
@@ -938,11 +932,17 @@ def check_saveload(pid, tier, seed):
         for rel in ([False, True] if tier == "thorough" else [False]):
             line, dup = u64_probe(rel)
             probes["release" if rel else "debug"] = line
+            overflow_panic = (not rel) and line.startswith("panic")
+            if overflow_panic and (pid, "u64-wrap") in known_cls and "u64-wrap" not in known_hits:
+                # the build with overflow checks stops at the same addition: the defect is still in the code
+                # (the duplicate id itself shows in builds without the checks: thorough tier)
+                known_hits["u64-wrap"] = None
+                print("KNOWN-FINDING: " + known_cls[(pid, "u64-wrap")]["text"])
             if dup:
                 if (pid, "u64-wrap") in known_cls:
                     if "u64-wrap" not in known_hits:
                         known_hits["u64-wrap"] = None
-                        print("KNOWN-FINDING: property=%s %s" % (pid, known_cls[(pid, "u64-wrap")]["text"]))
+                        print("KNOWN-FINDING: " + known_cls[(pid, "u64-wrap")]["text"])
                 else:
                     probe_violation = "two live entities carry marker id 0 after loading data that mentions id 2^64-1 " \
                                       "(%s build): %s" % ("release" if rel else "debug", line)
